@@ -17,9 +17,10 @@ from .. import pool, tlc, workers, worlds
 from ..report import Report
 from . import static
 
-# base classes: 1 object, 2 A, 3 B(A), 4 C, 5 list, 6 dict, 7 str
-ELBASE = [[], [1], [2], [1], [1], [1], [1]]
-BUILTIN = {"5": "list", "6": "dict", "7": "str"}
+# base classes: 1 object, 2 A, 3 B(A), 4 C, 5 Sequence, 6 list (a Sequence), 7 dict, 8 str (a Sequence)
+ELBASE = [[], [1], [2], [1], [1], [5], [1], [5]]
+BUILTIN = {"5": "Sequence", "6": "list", "7": "dict", "8": "str"}
+SEQ, LIST, DICT, STR = 5, 6, 7, 8
 
 
 def cls(c):
@@ -31,11 +32,12 @@ def gen(o, *args):
 
 
 ELEMENTS = [
-    cls(1), cls(2), cls(3), cls(4), cls(5), cls(6),
-    gen(5, cls(2)), gen(5, cls(3)), gen(5, cls(4)),
-    gen(6, cls(7), cls(2)), gen(6, cls(7), cls(3)),
-    gen(5, gen(5, cls(2))), gen(5, gen(5, cls(3))),
-    gen(6, cls(7)), gen(5, cls(2), cls(3)), gen(5, gen(5, cls(2), cls(3))),   # same origin, other number of arguments
+    cls(1), cls(2), cls(3), cls(4), cls(LIST), cls(DICT),
+    gen(LIST, cls(2)), gen(LIST, cls(3)), gen(LIST, cls(4)),
+    gen(DICT, cls(STR), cls(2)), gen(DICT, cls(STR), cls(3)),
+    gen(LIST, gen(LIST, cls(2))), gen(LIST, gen(LIST, cls(3))),
+    gen(DICT, cls(STR)), gen(LIST, cls(2), cls(3)), gen(LIST, gen(LIST, cls(2), cls(3))),   # same origin, other number of arguments
+    cls(SEQ), gen(SEQ, cls(2)), gen(SEQ, cls(3)), gen(LIST, cls(1)),                          # an origin above list: Sequence[...]; list[object]
     {"k": "any"},
 ]
 
@@ -62,7 +64,8 @@ def build_world(rng, with_inst):
     # `any` is the same node as cls(1) semantically (mutually subtypes): keep it only as an argument
     # order elements so that supertypes come first (more supers => later)
     tys = [e for e in els if e["k"] != "any"]
-    tys.sort(key=lambda e: sum(1 for f in tys if f is not e and py_subelem(anc, e, f)))
+    allt = list(tys)   # (a list is empty while it is being sorted)
+    tys.sort(key=lambda e: sum(1 for f in allt if f is not e and py_subelem(anc, e, f)))
     nodes = [{"k": "top"}] + tys
     parents = [[]]
     for n, e in enumerate(tys, start=2):
@@ -98,6 +101,23 @@ def gen_jobs(tier, seed):
             m = worlds.mkmethod(f"m{j + 1}", j + 1, pos, prio=rng.choice([0, 0, 0, 1]))
             m["bare"] = rng.random() < 0.5
             methods.append(m)
+        # not generated together: a bare class (type[list]) and a generic over a strict superclass of it
+        # (type[Sequence[A]]).  The library orders the bare class below (tests/test_mro.py: inorder(Iterable[int], list))
+        # although it is not a subtype; the statement's "more specific" does not settle that pair.
+        els_ = w["elements"]
+        anc_ = worlds.ancestors(ELBASE)
+
+        def clash(ms):
+            tt = [els_[t["c"] - 1] for m in ms for t in m["pos"] if t["c"] != 1]
+            return any(x["k"] == "cls" and y["k"] == "gen" and x["c"] != y["o"] and y["o"] in anc_.get(x["c"], ())
+                       for x in tt for y in tt if x.get("k") in ("cls",) and "c" in x)
+        for _ in range(20):
+            if not clash(methods):
+                break
+            for m in methods:
+                for t in m["pos"]:
+                    if t["c"] != 1 and els_[t["c"] - 1].get("k") == "gen" and els_[t["c"] - 1]["o"] == SEQ:
+                        t["c"] = rng.choice(tynodes)
         w["methods"] = methods
         calls = []
         for a in tynodes:
